@@ -15,6 +15,9 @@ C = dict(
     model_checks=[
         dict(module="WriterRepl", cfg="WriterRepl_MCq.cfg", tiers=["quick"], workers=4),
         dict(module="WriterRepl", cfg="WriterRepl_MC.cfg", tiers=["thorough"], workers=8),
+        # ... whatever the writer has learnt before the call (dropped-object seeds, drop / create events on the same writer)
+        dict(module="WriterRepl", cfg="WriterRepl_MCkq.cfg", tiers=["quick"], workers=4),
+        dict(module="WriterRepl", cfg="WriterRepl_MCk.cfg", tiers=["thorough"], workers=8),
     ],
     plan_sources=[
         dict(name="one", module="WriterRepl", cfg="WriterRepl_Plan1Q.cfg", tiers=["quick"], cap={"quick": 2000}, workers=4),
@@ -22,6 +25,14 @@ C = dict(
         dict(name="par", module="WriterRepl", cfg="WriterRepl_PlanPar.cfg", cap={"quick": 600}, workers=4),
         dict(name="sim", module="WriterRepl", cfg="WriterRepl_PlanSim.cfg", simulate={"quick": 6, "thorough": 60}, depth=8,
              cap={"quick": 200, "thorough": 4000}),
+        # history before the call: cfg + learn (drop collection / partition / database, create partition on the same writer) + call
+        # naming an object class and an epoch; cfg with a dropped-object seed + such a call; deep random histories of both
+        dict(name="learn", module="WriterRepl", cfg="WriterRepl_PlanLearnQ.cfg", tiers=["quick"], workers=4),
+        dict(name="seed", module="WriterRepl", cfg="WriterRepl_PlanSeedQ.cfg", tiers=["quick"], workers=4),
+        dict(name="learnT", module="WriterRepl", cfg="WriterRepl_PlanLearnT.cfg", tiers=["thorough"], workers=8),
+        dict(name="seedT", module="WriterRepl", cfg="WriterRepl_PlanSeedT.cfg", tiers=["thorough"], workers=8),
+        dict(name="simk", module="WriterRepl", cfg="WriterRepl_PlanSimK.cfg", simulate={"quick": 6, "thorough": 60}, depth=8,
+             cap={"quick": 300, "thorough": 6000}),
     ],
     directed="plans/C07.jsonl",
     trace=("WriterRepl_Trace", "WriterRepl_Trace.cfg"),
@@ -32,7 +43,13 @@ C = dict(
          "for every pack shape (kind sequences up to 3 (quick, sampled) / 4 (thorough, all) over insert, delete, "
          "drop-collection, drop-partition, time-tick, import) x channel x downstream success/failure; cfg + one concurrent "
          "pair on two channels (both downstream calls held inside the fake at once, both release orders, shapes up to 2 over "
-         "insert/tick/drop-collection); TLC -simulate plans of 4 steps on one writer.  Non-trivial = at least one message "
+         "insert/tick/drop-collection); TLC -simulate plans of 4 steps on one writer; history before the call: cfg (optionally with a "
+         "dropped database / collection / partition seeded into the writer's tables) + a learn step (drop-collection / "
+         "drop-partition / create-partition api event, drop-database op message handled by the same writer) + one call whose "
+         "messages all belong to a named object class (mapped collection / collection of an unmapped database; thorough: also a "
+         "sibling collection) and were written before ('old') or after ('fresh') everything the writer learnt, every pack shape up "
+         "to 2 over insert/delete/tick/drop-collection x success/failure (all of them replayed), and TLC -simulate plans of 5 such "
+         "steps.  Non-trivial = at least one message "
          "decoded from MsgsBytes; distinct = distinct event sequences",
     assumptions=[
         "observation point is the api.DataHandler interface: the fake decodes MsgsBytes with msgstream.ProtoUDFactory's "
@@ -44,11 +61,27 @@ C = dict(
         "timestamps agree with the proto timestamps; delete messages always carry PrimaryKeys (Milvus >= 2.1)",
         "with a name mapping, 'equal names' means: db/collection are the mapped names of C09 (\"\" = default), partition and "
         "shard names unchanged",
+        "model time of the history plans: step i happens at epoch i+1 (seeds: 1), 'old' rows at epoch 0; epochs are disjoint "
+        "millisecond ranges, a drop is stamped above the rows of its epoch; rows stamped exactly at a drop are not generated",
+        "learn steps succeed downstream (the fake accepts drops, probes find every object); what the statement demands of a "
+        "later call does not depend on them, so their own outcome is logged but not judged",
         "same-channel concurrency is outside the statement (replicate_message_manager.go says so) and not exercised",
         "TLC exhaustiveness holds for the constants in the cfg files only",
     ],
 )
 
 
+# negative controls (vacuity of the history plans): a writer whose answer to a failing downstream call depends on what it has
+# recorded about drops MUST violate the contract at every level of its tables
+CONTROLS = ["WriterRepl_SwallowColl.cfg", "WriterRepl_SwallowDb.cfg", "WriterRepl_SwallowPart.cfg"]
+
+
 def run(tier, replay=None):
+    if not replay:
+        from lib import vlib
+        for cfg in CONTROLS:
+            r = vlib.run_tlc("WriterRepl", cfg, workers=2, timeout=300)
+            if "ContractHolds" not in r.violated:
+                raise vlib.Inconclusive("%s no longer violates the contract: the history before the call is vacuous" % cfg)
+            vlib.log("[tlc] WriterRepl/%s: violates ContractHolds as expected" % cfg)
     return flow.standard_flow(C, tier, replay)
